@@ -359,8 +359,10 @@ def cause_of(lang, name, base_body, yaml_dict):
             return "class-template"
     if lang == "py" and name.endswith(".utility.to_object"):
         return "py-to_object"
-    if lang == "lua" and parts[0] == "function":
-        return "lua-flat-names"  # the Lua emitter does not scope function blocks by namespace
+    if lang == "lua":
+        # the Lua emitter names a block after the bare function name: no namespace scope and no
+        # overload suffix (overloaded functions and constructors are dispatched inside one wrapper)
+        return "lua-flat-names"
     return "plain"
 
 
